@@ -273,10 +273,28 @@ def generic(built, an):
     for n in ast.walk(built.tree):
         if isinstance(n, ast.Assign) and any(isinstance(t, ast.Name) and t.id == '_status' for t in n.targets):
             v = n.value
-            boolean = (isinstance(v, ast.Constant) and isinstance(v.value, bool)) \
-                or (isinstance(v, ast.UnaryOp) and isinstance(v.op, ast.Not)) or isinstance(v, ast.Compare) \
-                or (isinstance(v, ast.Call) and isinstance(v.func, ast.Name) and v.func.id == 'bool')
-            if not boolean:
+
+            def boolean(e, depth=0):
+                """an expression whose value is True or False whatever its operands hold"""
+                if isinstance(e, ast.Constant):
+                    return isinstance(e.value, bool)
+                if isinstance(e, ast.UnaryOp) and isinstance(e.op, ast.Not):
+                    return True
+                if isinstance(e, ast.Compare):
+                    return True
+                if isinstance(e, ast.Call) and isinstance(e.func, ast.Name) and e.func.id in ('bool', 'isinstance', 'callable'):
+                    return True
+                if isinstance(e, ast.BoolOp):
+                    return all(boolean(x, depth) for x in e.values)
+                if isinstance(e, ast.IfExp):
+                    return boolean(e.body, depth) and boolean(e.orelse, depth)
+                if isinstance(e, ast.Name) and depth < 3 and e.id != '_status':
+                    # a flag: every assignment to it in this skeleton is boolean
+                    vals = [a.value for a in ast.walk(built.tree) if isinstance(a, ast.Assign)
+                            and any(isinstance(t, ast.Name) and t.id == e.id for t in a.targets)]
+                    return bool(vals) and all(boolean(x, depth + 1) for x in vals)
+                return False
+            if not boolean(v):
                 out.append(mk('G3-protocol', built,
                               f'`_status = {ast.unparse(v)[:60]}` stores a value that need not be True or False in the '
                               f'status register: a rule ending with status 3 (the CALL tag) is taken for a request by '
